@@ -5,7 +5,7 @@
    where x_K is the K-th iterate of the loop run without its stopping rule (tol = 0) and F_j the penalised objective
    of column j.  With t_K >= (K+1)/2:  F_j(x_K) - F_j(s) <= 2 |x_0 - s|^2 / (lr (K+1)^2). *)
 From Coq Require Import List Arith Bool Reals Lra Lia Psatz.
-From TLV Require Import Base.Ops Base.PyList Base.Tensor Base.RSum Model.Nnls Proofs.NnlsProofs Proofs.NnlsProofsFista.
+From TLV Require Import Base.Ops Base.PyList Base.Tensor Base.RSum Model.Nnls Proofs.NnlsProofs Proofs.NnlsProofsFista Proofs.NnlsProofsEps.
 Import ListNotations.
 Open Scope R_scope.
 
@@ -113,7 +113,7 @@ Definition momentum_step (beta : R) (xn x : mat) : mat := mmap2 (fun a d => fadd
 Definition potential (k : nat) (x xu : mat) : R :=
   2 * lr * (t k)^2 * (F (colf x j) - F s) + rsum r (fun i => (t (S k) * Mget xu i j - (t (S k) - 1) * Mget x i j - s i)^2).
 
-Lemma potential_step k (x xu : mat) : wfm r n x -> wfm r n xu -> (forall i, (i < r)%nat -> eps <= Mget x i j) ->
+Lemma potential_step k (x xu : mat) : wfm r n x -> wfm r n xu -> (t (S k) = 1 \/ forall i, (i < r)%nat -> eps <= Mget x i j) ->
   let xn := new xu in let xu' := momentum_step (beta_of k) xn x in
   wfm r n xn /\ wfm r n xu' /\ (forall i, (i < r)%nat -> eps <= Mget xn i j) /\ potential (S k) xn xu' <= potential k x xu.
 Proof.
@@ -125,7 +125,6 @@ Proof.
   split; [exact Wn|]. split; [exact Wu'|]. split; [exact Fn|].
   assert (HS : isstep r G (bf UtM j) sp rd lr eps (colf xu j) (colf xn j)).
   { intros i Hi. unfold colf at 1. apply (fista_new_entry UtM UtU r n sp rd lr eps WG WB xu i j Wu Hi Hj). }
-  pose proof (prox_ineq r G (bf UtM j) sp rd lr eps Gsym Gpsd Hrd Hlr HL (colf xu j) (colf xn j) (colf x j) HS Hf) as Ia.
   pose proof (prox_ineq r G (bf UtM j) sp rd lr eps Gsym Gpsd Hrd Hlr HL (colf xu j) (colf xn j) s HS s_feas) as Ib.
   set (N := rsum r (fun i => (colf xn j i - colf xu j i)^2)) in *.
   set (A := rsum r (fun i => (colf xu j i - colf x j i) * (colf xn j i - colf xu j i))) in *.
@@ -152,18 +151,21 @@ Proof.
     rewrite <- rsum_lin4. apply rsum_ext. intros i _. ring. }
   unfold potential. fold T. rewrite U1.
   set (vk := F (colf x j) - F s) in *. set (vk1 := F (colf xn j) - F s) in *.
-  assert (Ia' : N / 2 + A <= lr * (vk - vk1)) by (unfold vk, vk1; lra).
   assert (Ib' : N / 2 + B <= lr * (0 - vk1)) by (unfold vk1; lra).
   assert (TR : (t k)^2 = T^2 - T) by (unfold T; rewrite <- t_rec; ring).
   rewrite TR.
-  assert (K1 : 0 <= (T - 1) * (lr * (vk - vk1) - (N / 2 + A))) by (apply Rmult_le_pos; lra).
+  assert (K1 : 0 <= (T - 1) * (lr * (vk - vk1) - (N / 2 + A))).
+  { destruct Hf as [Hf|Hf].
+    - fold T in Hf. rewrite Hf. lra.   (* first iteration: no extrapolation, the previous point need not be feasible *)
+    - pose proof (prox_ineq r G (bf UtM j) sp rd lr eps Gsym Gpsd Hrd Hlr HL (colf xu j) (colf xn j) (colf x j) HS Hf) as Ia.
+      fold N A in Ia. apply Rmult_le_pos; [lra|]. unfold vk, vk1. lra. }
   assert (K2 : 0 <= T * (lr * (0 - vk1) - (N / 2 + B))) by (apply Rmult_le_pos; lra).
   nra.
 Qed.
 
 Notation run := (fista_run UtM UtU n true sp rd lr eps).
 
-Lemma potential_run K : forall k x xu, wfm r n x -> wfm r n xu -> (forall i, (i < r)%nat -> eps <= Mget x i j) ->
+Lemma potential_run K : forall k x xu, wfm r n x -> wfm r n xu -> (t (S k) = 1 \/ forall i, (i < r)%nat -> eps <= Mget x i j) ->
   2 * lr * (t (k + K))^2 * (F (colf (run (map beta_of (seq k K)) x xu) j) - F s) <= potential k x xu.
 Proof.
   induction K as [|K IH]; intros k x xu Wx Wu Hf.
@@ -173,14 +175,14 @@ Proof.
   - cbn [seq map fista_run]. cbv zeta.
     destruct (potential_step k x xu Wx Wu Hf) as (Wn & Wu' & Fn & Hp). cbv zeta in Wn, Wu', Fn, Hp.
     replace (k + S K)%nat with (S k + K)%nat by lia.
-    eapply Rle_trans; [apply (IH (S k)); assumption | exact Hp].
+    eapply Rle_trans; [apply (IH (S k)); [assumption | assumption | right; exact Fn] | exact Hp].
 Qed.
 
 (* the rate: K iterations from x0 (= x_update), column j of x0 feasible, t 0 = 0 and t 1 = 1 *)
-Theorem fista_rate K (x0 : mat) : t 0%nat = 0 -> t 1%nat = 1 -> wfm r n x0 -> (forall i, (i < r)%nat -> eps <= Mget x0 i j) ->
+Theorem fista_rate K (x0 : mat) : t 0%nat = 0 -> t 1%nat = 1 -> wfm r n x0 ->
   2 * lr * (t K)^2 * (F (colf (run (map beta_of (seq 0 K)) x0 x0) j) - F s) <= rsum r (fun i => (Mget x0 i j - s i)^2).
 Proof.
-  intros T0 T1 W Hf. pose proof (potential_run K 0 x0 x0 W W Hf) as H. cbn [plus] in H.
+  intros T0 T1 W. pose proof (potential_run K 0 x0 x0 W W (or_introl T1)) as H. cbn [plus] in H.
   eapply Rle_trans; [exact H|]. unfold potential. rewrite T0, T1. apply Req_le.
   replace (2 * lr * 0 ^ 2 * (F (colf x0 j) - F s)) with 0 by ring. rewrite Rplus_0_l.
   apply rsum_ext. intros i _. ring.
@@ -193,18 +195,18 @@ Theorem fista_rate_code UtM UtU r n sp rd lr eps j (s : nat -> R) K' (x0 : mat) 
   wfm r r UtU -> wfm r n UtM -> (j < n)%nat -> (forall i k, Gf UtU i k = Gf UtU k i) -> (forall d, 0 <= quad r (Gf UtU) d) ->
   0 <= rd -> 0 < lr ->
   (forall d : nat -> R, lr * (quad r (Gf UtU) d + 2 * rd * rsum r (fun i => (d i)^2)) <= rsum r (fun i => (d i)^2)) ->
-  (forall i, (i < r)%nat -> eps <= s i) -> wfm r n x0 -> (forall i, (i < r)%nat -> eps <= Mget x0 i j) ->
+  (forall i, (i < r)%nat -> eps <= s i) -> wfm r n x0 ->
   let K := S K' in
   let xK := fista_run UtM UtU n true sp rd lr eps (map (beta_of tseq) (seq 0 K)) x0 x0 in
   0 <= qp_f r (Gf UtU) (bf UtM j) sp rd (colf xK j) - qp_f r (Gf UtU) (bf UtM j) sp rd s ->
   lr * (INR K + 1)^2 * (qp_f r (Gf UtU) (bf UtM j) sp rd (colf xK j) - qp_f r (Gf UtU) (bf UtM j) sp rd s)
   <= 2 * rsum r (fun i => (Mget x0 i j - s i)^2).
 Proof.
-  intros WG WB Hj Gsym Gpsd Hrd Hlr HL Hs W Hf K xK Hv.
+  intros WG WB Hj Gsym Gpsd Hrd Hlr HL Hs W K xK Hv.
   assert (Trec : forall k, (tseq (S k))^2 - tseq (S k) = (tseq k)^2) by (intros k; apply tseq_facts).
   assert (Tge : forall k, 1 <= tseq (S k)) by (intros k; apply tseq_facts).
   pose proof tseq_1 as T1.
-  pose proof (fista_rate UtM UtU r n sp rd lr eps j WG WB Hj Gsym Gpsd Hrd Hlr HL tseq Trec Tge s Hs K x0 eq_refl T1 W Hf) as H.
+  pose proof (fista_rate UtM UtU r n sp rd lr eps j WG WB Hj Gsym Gpsd Hrd Hlr HL tseq Trec Tge s Hs K x0 eq_refl T1 W) as H.
   fold xK in H. set (v := qp_f r (Gf UtU) (bf UtM j) sp rd (colf xK j) - qp_f r (Gf UtU) (bf UtM j) sp rd s) in *.
   set (C := rsum r (fun i => (Mget x0 i j - s i)^2)) in *.
   assert (TK : INR K + 1 <= 2 * tseq K).
@@ -214,31 +216,74 @@ Proof.
   assert (0 <= lr * v) by (apply Rmult_le_pos; lra). nra.
 Qed.
 
-(* the statement for the model's function `fista` itself (tol = 0: the stopping rule never fires), epsilon = 0, against a KKT point
-   X of the problem (the optimum): the objective gap of column j after K >= 1 iterations is at most 2 |x0 - X|^2 / (lr (K+1)^2) *)
-Theorem fista_rate_optimum UtM UtU r n sp rd lr j (X : mat) K' (x0 : mat) :
+(* the statement for the model's function `fista` itself (tol = 0: the stopping rule never fires), ANY bound epsilon and ANY start
+   (feasible or not, e.g. the zeros of x=None with the default epsilon = 1e-8), against a KKT point X at the bound epsilon (the optimum
+   over {v >= epsilon}): the objective gap of column j after K >= 1 iterations is >= 0 and at most 2 |x0 - X|^2 / (lr (K+1)^2) *)
+Theorem fista_rate_optimum UtM UtU r n sp rd lr eps j (X : mat) K' (x0 : mat) :
   wfm r r UtU -> wfm r n UtM -> (j < n)%nat -> (forall i k, Gf UtU i k = Gf UtU k i) -> (forall d, 0 <= quad r (Gf UtU) d) ->
   0 <= rd -> 0 < lr ->
   (forall d : nat -> R, lr * (quad r (Gf UtU) d + 2 * rd * rsum r (fun i => (d i)^2)) <= rsum r (fun i => (d i)^2)) ->
-  (forall i, (i < r)%nat -> 0 <= Mget X i j /\ 0 <= qp_grad r (Gf UtU) (bf UtM j) sp rd (colf X j) i /\
-                            Mget X i j * qp_grad r (Gf UtU) (bf UtM j) sp rd (colf X j) i = 0) ->
-  wfm r n x0 -> (forall i, (i < r)%nat -> 0 <= Mget x0 i j) ->
+  (forall i, (i < r)%nat -> eps <= Mget X i j /\ 0 <= qp_grad r (Gf UtU) (bf UtM j) sp rd (colf X j) i /\
+                            (Mget X i j - eps) * qp_grad r (Gf UtU) (bf UtM j) sp rd (colf X j) i = 0) ->
+  wfm r n x0 ->
   let K := S K' in
-  let xK := fista Rops UtM UtU n true sp rd lr 0 0 x0 (map (beta_of tseq) (seq 0 K)) in
+  let xK := fista Rops UtM UtU n true sp rd lr 0 eps x0 (map (beta_of tseq) (seq 0 K)) in
   let gap := qp_f r (Gf UtU) (bf UtM j) sp rd (colf xK j) - qp_f r (Gf UtU) (bf UtM j) sp rd (colf X j) in
   0 <= gap /\ lr * (INR K + 1)^2 * gap <= 2 * rsum r (fun i => (Mget x0 i j - Mget X i j)^2).
 Proof.
-  intros WG WB Hj Gsym Gpsd Hrd Hlr HL XK W Hf K xK gap.
-  assert (E : xK = fista_run UtM UtU n true sp rd lr 0 (map (beta_of tseq) (seq 0 K)) x0 x0).
+  intros WG WB Hj Gsym Gpsd Hrd Hlr HL XK W K xK gap.
+  assert (E : xK = fista_run UtM UtU n true sp rd lr eps (map (beta_of tseq) (seq 0 K)) x0 x0).
   { unfold xK, fista. change (f0 Rops) with 0. apply fista_tol0_runs_all. }
   assert (Hgap : 0 <= gap).
   { unfold gap. assert (qp_f r (Gf UtU) (bf UtM j) sp rd (colf X j) <= qp_f r (Gf UtU) (bf UtM j) sp rd (colf xK j)); [|lra].
-    apply kkt_optimal; auto.
-    intros i Hi. unfold colf at 1. unfold xK. apply (fista_ge_eps UtM UtU r n sp rd lr 0 0 WG WB x0); auto. unfold K. cbn. discriminate. }
+    apply (NnlsProofsEps.kkt_optimal_eps r (Gf UtU) (bf UtM j) sp rd eps); auto.
+    intros i Hi. unfold colf at 1. unfold xK. apply (fista_ge_eps UtM UtU r n sp rd lr 0 eps WG WB x0); auto. unfold K. cbn. discriminate. }
   split; [exact Hgap|].
-  pose proof (fista_rate_code UtM UtU r n sp rd lr 0 j (colf X j) K' x0 WG WB Hj Gsym Gpsd Hrd Hlr HL
-                (fun i Hi => proj1 (XK i Hi)) W Hf) as H. cbv zeta in H. fold K in H. rewrite <- E in H.
+  pose proof (fista_rate_code UtM UtU r n sp rd lr eps j (colf X j) K' x0 WG WB Hj Gsym Gpsd Hrd Hlr HL
+                (fun i Hi => proj1 (XK i Hi)) W) as H. cbv zeta in H. fold K in H. rewrite <- E in H.
   unfold gap in *. unfold colf at 3 in H. apply H. exact Hgap.
+Qed.
+
+(* with its stopping rule (any tol) the loop returns the iterate of the rule-free run at which it stopped: a prefix of the run *)
+Lemma fista_loop_is_prefix_run UtM UtU n nonneg sp rd lr tol eps betas : forall first norm0 x xu,
+  exists m, (m <= length betas)%nat /\ (betas <> [] -> (1 <= m)%nat) /\
+    fista_loop Rops UtM UtU n nonneg sp rd lr tol eps betas first norm0 x xu = fista_run UtM UtU n nonneg sp rd lr eps (firstn m betas) x xu.
+Proof.
+  induction betas as [|beta rest IH]; intros first norm0 x xu; [exists 0%nat; split; [lia | split; [congruence | reflexivity]]|].
+  cbn [fista_loop]. cbv zeta. destruct (fltb _ _ _).
+  - exists 1%nat. split; [cbn; lia | split; [lia | reflexivity]].
+  - match goal with |- context [fista_loop _ _ _ _ _ _ _ _ _ _ rest ?f ?n0 ?a ?b] => destruct (IH f n0 a b) as (m & Hm & _ & E) end.
+    exists (S m). split; [cbn; lia|]. split; [lia|]. cbn [firstn fista_run]. cbv zeta. exact E.
+Qed.
+
+Lemma firstn_map_seq {A} (f : nat -> A) m K : (m <= K)%nat -> firstn m (map f (seq 0 K)) = map f (seq 0 m).
+Proof.
+  intros H. rewrite firstn_map. f_equal. replace K with (m + (K - m))%nat by lia. rewrite seq_app, firstn_app, seq_length.
+  replace (m - m)%nat with 0%nat by lia. cbn [firstn]. rewrite app_nil_r. apply firstn_all2. rewrite seq_length. lia.
+Qed.
+
+(* the rate for ANY tol: fista returns the iterate m at which it stopped (1 <= m <= n_iter_max), and the bound holds with that m *)
+Theorem fista_rate_any_tol UtM UtU r n sp rd lr tol eps j (X : mat) K' (x0 : mat) :
+  wfm r r UtU -> wfm r n UtM -> (j < n)%nat -> (forall i k, Gf UtU i k = Gf UtU k i) -> (forall d, 0 <= quad r (Gf UtU) d) ->
+  0 <= rd -> 0 < lr ->
+  (forall d : nat -> R, lr * (quad r (Gf UtU) d + 2 * rd * rsum r (fun i => (d i)^2)) <= rsum r (fun i => (d i)^2)) ->
+  (forall i, (i < r)%nat -> eps <= Mget X i j /\ 0 <= qp_grad r (Gf UtU) (bf UtM j) sp rd (colf X j) i /\
+                            (Mget X i j - eps) * qp_grad r (Gf UtU) (bf UtM j) sp rd (colf X j) i = 0) ->
+  wfm r n x0 ->
+  let y := fista Rops UtM UtU n true sp rd lr tol eps x0 (map (beta_of tseq) (seq 0 (S K'))) in
+  let gap := qp_f r (Gf UtU) (bf UtM j) sp rd (colf y j) - qp_f r (Gf UtU) (bf UtM j) sp rd (colf X j) in
+  exists m, (1 <= m <= S K')%nat /\ 0 <= gap /\ lr * (INR m + 1)^2 * gap <= 2 * rsum r (fun i => (Mget x0 i j - Mget X i j)^2).
+Proof.
+  intros WG WB Hj Gsym Gpsd Hrd Hlr HL XK W y gap.
+  destruct (fista_loop_is_prefix_run UtM UtU n true sp rd lr tol eps (map (beta_of tseq) (seq 0 (S K'))) true 0 x0 x0) as (m & Hm & H1 & E).
+  rewrite map_length, seq_length in Hm. specialize (H1 ltac:(cbn; discriminate)).
+  rewrite firstn_map_seq in E by exact Hm.
+  exists m. split; [lia|].
+  destruct m as [|m']; [lia|].
+  pose proof (fista_rate_optimum UtM UtU r n sp rd lr eps j X m' x0 WG WB Hj Gsym Gpsd Hrd Hlr HL XK W) as R1. cbv zeta in R1.
+  assert (EY : y = fista Rops UtM UtU n true sp rd lr 0 eps x0 (map (beta_of tseq) (seq 0 (S m')))).
+  { unfold y, fista. change (f0 Rops) with 0. rewrite E. symmetry. apply fista_tol0_runs_all. }
+  unfold gap. rewrite EY. exact R1.
 Qed.
 
 Lemma tseq_props : tseq 0 = 0 /\ tseq 1 = 1 /\
